@@ -196,6 +196,12 @@ def rule_r5(facts, col):
         if not [1 for b in [body] + adt_helpers(facts, body) for bb, t in b.calls()
                 if t["f"].get("name") == "read" and t["f"].get("trait") == "std::io::Read"]:
             continue
+        for hb in adt_helpers(facts, body):
+            _carry_drops(facts, col, hb, carry, owner=body)
+        _carry_drops(facts, col, body, carry, owner=body)
+
+
+def _carry_drops(facts, col, body, carry, owner):
         content_reads = {}
         drops = []
         for bb, t in body.calls():
@@ -219,7 +225,7 @@ def rule_r5(facts, col):
                 if s_["dst"]["l"] == 1 and len(pj) == 2 and pj[0] == "*" and isinstance(pj[1], dict) and pj[1].get("n") in carry:
                     drops.append((bb, pj[1]["n"], "assignment"))
         for bb, f, how in drops:
-            key = "%s:%s:%s" % (body.q, f, how)
+            key = "%s:%s:%s" % (owner.q, f, how)
             ok = any(body.dominates(r, bb) and r != bb for r in content_reads.get(f, []))
             why = "its bytes were read (parse/chunks) on every path here"
             if not ok:
